@@ -33,6 +33,57 @@ type client41 struct {
 	sessions []*session41
 	opens    map[string]map[string]*open41
 	older    []*open41
+
+	// cidField selects what the NEXT requests put into the clientid field
+	// of open_owner4 / lock_owner4 arguments (OPEN, LOCK with
+	// open_to_lock_owner4, LOCKT). In NFSv4.1 the client is identified by
+	// the session; the field carries no information and the server must
+	// ignore it (RFC 8881, sections 18.10.3, 18.11.3, 18.16.3: "the client
+	// ID ... is ignored"), so the reference model identifies owners by
+	// (session's client, owner bytes) whatever the field says.
+	cidField cidMode
+}
+
+// cidMode: contents of the clientid field inside state_owner4 arguments.
+type cidMode int
+
+const (
+	cidSession cidMode = iota // the session's client ID (what Linux sends)
+	cidZero                   // 0 (what clients that follow the RFC's hint send)
+	cidOther                  // another client's ID (or a never-issued one)
+)
+
+func (m cidMode) String() string { return [...]string{"", " owner.clientid=0", " owner.clientid=other"}[m] }
+
+var cidModes = []cidMode{cidSession, cidZero, cidOther}
+
+// ownerCID is the value of the clientid field according to c.cidField.
+func (c *client41) ownerCID() uint64 {
+	switch c.cidField {
+	case cidZero:
+		return 0
+	case cidOther:
+		for _, oc := range sortedClients41(c.w) {
+			if oc != c && oc.haveID && oc.id != c.id {
+				return oc.id
+			}
+		}
+		for _, oc := range sortedClients40(c.w) {
+			if oc.haveID && oc.id != c.id {
+				return oc.id
+			}
+		}
+		return c.id ^ 0x5a5a00
+	}
+	return c.id
+}
+
+// withCID runs fn with the clientid field of owner arguments set to m.
+func (c *client41) withCID(m cidMode, fn func()) {
+	old := c.cidField
+	c.cidField = m
+	defer func() { c.cidField = old }()
+	fn()
 }
 
 type session41 struct {
@@ -403,9 +454,9 @@ func (c *client41) open(f failer, ownerName, file string, access uint32, how ope
 			cl = &nfsv4.OpenClaim4_CLAIM_PREVIOUS{DelegateType: nfsv4.OPEN_DELEGATE_NONE}
 		}
 	}
-	res := c.sequence(f, fmt.Sprintf("OPEN41(%s,%s,%s)", c.owner, ownerName, file), first, &nfsv4.NfsArgop4_OP_OPEN{Opopen: nfsv4.Open4args{
+	res := c.sequence(f, fmt.Sprintf("OPEN41(%s,%s,%s%s)", c.owner, ownerName, file, c.cidField), first, &nfsv4.NfsArgop4_OP_OPEN{Opopen: nfsv4.Open4args{
 		ShareAccess: access, ShareDeny: nfsv4.OPEN4_SHARE_DENY_NONE,
-		Owner: nfsv4.OpenOwner4{Clientid: c.id, Owner: []byte(ownerName)}, Openhow: openflag(how), Claim: cl,
+		Owner: nfsv4.OpenOwner4{Clientid: c.ownerCID(), Owner: []byte(ownerName)}, Openhow: openflag(how), Claim: cl,
 	}}, &nfsv4.NfsArgop4_OP_GETFH{})
 	if res == nil {
 		return nfsv4.NFS4ERR_BADSESSION
@@ -445,7 +496,7 @@ func (c *client41) openIOClose(f failer, ownerName, file string, access uint32) 
 	w := c.w
 	ops := []nfsv4.NfsArgop4{&nfsv4.NfsArgop4_OP_PUTROOTFH{}, &nfsv4.NfsArgop4_OP_OPEN{Opopen: nfsv4.Open4args{
 		ShareAccess: access, ShareDeny: nfsv4.OPEN4_SHARE_DENY_NONE,
-		Owner: nfsv4.OpenOwner4{Clientid: c.id, Owner: []byte(ownerName)}, Openhow: openflag(howNoCreate), Claim: &nfsv4.OpenClaim4_CLAIM_NULL{File: file},
+		Owner: nfsv4.OpenOwner4{Clientid: c.ownerCID(), Owner: []byte(ownerName)}, Openhow: openflag(howNoCreate), Claim: &nfsv4.OpenClaim4_CLAIM_NULL{File: file},
 	}}}
 	if access&accRead != 0 {
 		ops = append(ops, ioOp(ioRead, currentSID))
@@ -527,9 +578,9 @@ func (c *client41) lock(f failer, op *open41, lownerName string, r lockRange, sh
 	if useExisting {
 		locker = &nfsv4.Locker4_FALSE{LockOwner: nfsv4.ExistLockOwner4{LockStateid: existing.sid}}
 	} else {
-		locker = &nfsv4.Locker4_TRUE{OpenOwner: nfsv4.OpenToLockOwner4{OpenStateid: op.sid, LockOwner: nfsv4.LockOwner4{Clientid: c.id, Owner: []byte(lownerName)}}}
+		locker = &nfsv4.Locker4_TRUE{OpenOwner: nfsv4.OpenToLockOwner4{OpenStateid: op.sid, LockOwner: nfsv4.LockOwner4{Clientid: c.ownerCID(), Owner: []byte(lownerName)}}}
 	}
-	what := fmt.Sprintf("LOCK41(%s,%s,%s,%s,%s,shared=%v,viaOpen=%v)", c.owner, op.ownerName, op.leaf.id, lownerName, r.name, shared, !useExisting)
+	what := fmt.Sprintf("LOCK41(%s,%s,%s,%s,%s,shared=%v,viaOpen=%v%s)", c.owner, op.ownerName, op.leaf.id, lownerName, r.name, shared, !useExisting, c.cidField)
 	res := c.sequence(f, what, putfh(op.leaf.handle), &nfsv4.NfsArgop4_OP_LOCK{Oplock: nfsv4.Lock4args{
 		Locktype: lockType(shared), Offset: r.offset, Length: r.length, Locker: locker,
 	}})
@@ -624,9 +675,9 @@ func (c *client41) locku(f failer, op *open41, lownerName string, r lockRange) n
 func (c *client41) lockt(f failer, leaf *fakeLeaf, lownerName string, r lockRange, shared bool) nfsv4.Nfsstat4 {
 	w := c.w
 	me := ownerKey(1, c.owner, lownerName)
-	what := fmt.Sprintf("LOCKT41(%s,%s,%s,%s,shared=%v)", c.owner, leaf.id, lownerName, r.name, shared)
+	what := fmt.Sprintf("LOCKT41(%s,%s,%s,%s,shared=%v%s)", c.owner, leaf.id, lownerName, r.name, shared, c.cidField)
 	res := c.sequence(f, what, putfh(leaf.handle), &nfsv4.NfsArgop4_OP_LOCKT{Oplockt: nfsv4.Lockt4args{
-		Locktype: lockType(shared), Offset: r.offset, Length: r.length, Owner: nfsv4.LockOwner4{Clientid: c.id, Owner: []byte(lownerName)},
+		Locktype: lockType(shared), Offset: r.offset, Length: r.length, Owner: nfsv4.LockOwner4{Clientid: c.ownerCID(), Owner: []byte(lownerName)},
 	}})
 	if res == nil {
 		return nfsv4.NFS4ERR_BADSESSION
